@@ -71,7 +71,7 @@ pub fn judge(name: &str, session: &SessionSpec, res: &Res, reference: &[SessionS
         "c16" => monitor_judge("C16", "c16", "uncovered-target-operation", session, res),
         "c15" => monitor_judge("C15", "c15", "read-only-modified", session, res),
         "c14" => crate::c14::judge(session, res, reference, ref_res),
-        "c36" => crate::c36::judge(session, res),
+        "c36" => crate::c36::judge(session, res, reference, ref_res),
         "c04" => crate::c04::judge(session, res),
         other => Err(format!("unknown judge {other}")),
     }
